@@ -37,6 +37,9 @@ STRUCT = {
     6: [("s1", "a", 1.0, "b", 1.0, "p0"), ("s1", "a", 1.0, "b", 1.0, "p1"), ("s2", "c", 1.0, "b", 1.0, "p2"),
         ("s2", "a", 1.0, "b", 1.0, "p3"), ("s2", "c", 1.0, "b", 1.0, "p3"), ("s1", "b", 1.0, "a", 1.0, "p4"),
         ("s1", "a", 1.0, "b", 1.0, "p4"), ("s2", "c", 1.0, "b", 1.0, "p5"), ("s1", "a", 1.0, "", 0.0, "p5")],
+    # single-agent wells next to combinations that use the highest treatment id: (a, c) and (b, control) are different conditions
+    "S3": [("s1", "a", 1.0, "c", 1.0, "p0"), ("s1", "b", 1.0, "", 0.0, "p1"), ("s1", "a", 1.0, "b", 1.0, "p2"),
+           ("s1", "", 0.0, "c", 1.0, "p1"), ("s2", "b", 1.0, "c", 1.0, "p0"), ("s2", "c", 1.0, "", 0.0, "p2")],
 }
 # single-sample plates for the policy configurations: (sample of plate i)
 SINGLE = {4: ["s1", "s1", "s2", "s2"], 5: ["s1", "s1", "s1", "s2", "s2"], 6: ["s1", "s1", "s2", "s2", "s3", "s1"]}
@@ -47,6 +50,7 @@ def configs(tier, seed):
     out = []
     for P in ((3, 4) if q else (3, 4, 5, 6)):
         out.append(dict(name="coverage P=%d" % P, h="coverage", P=P, extra_chunks=1 if q else 2))
+    out.append(dict(name="coverage P=3 with single-agent wells", h="coverage", P=3, struct="S3", extra_chunks=1))
     for P in ((3,) if q else (3, 4, 5)):
         out.append(dict(name="select P=%d" % P, h="select", P=P, policy=None, neginf=False))
     for P in ((3,) if q else (3, 4)):
@@ -112,7 +116,7 @@ def _setup(ctx, cfg, single=False):
         from .retro_common import family
         rows = family(cfg["fam"])
     else:
-        rows = STRUCT[P]
+        rows = STRUCT[cfg.get("struct", P)]
     pnames = sorted(set(r[5] for r in rows))
     observed = {p: ctx.is_true(ctx.bool("obs%d" % i)) for i, p in enumerate(pnames)}
     R = len(rows)
